@@ -977,6 +977,8 @@ func (tc *typechecker) binaryOp(expr1 ast.Expression, op ast.OperatorType, expr2
 			typ = boolType
 		} else if !isShift && t1.Untyped() && t1.Type.Kind() < t2.Type.Kind() {
 			typ = t2.Type
+		} else if isShift && t1.Untyped() && !t1.IsInteger() {
+			typ = intType // the shift of an untyped float constant is an untyped integer constant
 		}
 		ti := &typeInfo{Type: typ, Constant: c}
 		if t1.Untyped() || isComparison(op) {
